@@ -267,6 +267,32 @@ def option_source(R, rng, tier):
         R.broken.append({"what": "correspondence: _log_option_source differs from the model", "input": meta[k], "implementation": cases[k][1], "model_output_excerpt": tail[:300]})
 
 
+def ini_discovery(R, rng, tier):
+    """A .bandit file lying in the scanned directory is found and used whatever that directory is called (names with characters
+    that mean something to glob or fnmatch, dot-directories), exactly like the same file given with --ini or the same selection
+    given on the command line."""
+    import shutil
+    d = os.path.join(impl.scratch(), "c13disc")
+    shutil.rmtree(d, ignore_errors=True)
+    for name in ("proj", "proj[v2]", "rel*ease", "a?b", "release[1-9]", "sp ace", "pkg.d"):
+        root = os.path.join(d, name)
+        os.makedirs(os.path.join(root, "sub"))
+        open(os.path.join(root, "m.py"), "w").write(PROG)
+        open(os.path.join(root, "sub", "n.py"), "w").write("assert zz_n\nexec(zz_m)\n")
+        open(os.path.join(root, ".bandit"), "w").write("[bandit]\ntests = B101,B110\n")
+        a = climain.run_main(["-q", "-f", "json", "-r", name], cwd=d)
+        b = climain.run_main(["-q", "-f", "json", "-t", "B101,B110", "-r", name], cwd=d)
+        c = climain.run_main(["-q", "-f", "json", "--ini", os.path.join(name, ".bandit"), "-r", name], cwd=d)
+        R.case(("ini-discovery", name), nontrivial=True, sample={"directory": name, "exit": a["exit"]})
+        R.count("ini-discovery")
+        if a["exception"] or results(a) != results(b) or results(c) != results(b) or a["exit"] != b["exit"]:
+            R.violations.append({"what": "the .bandit file in the scanned directory %r is not used like the same selection on the command line" % name,
+                                 "input": {"directory": name, "ini": "tests = B101,B110"},
+                                 "observed": {"discovered": sorted({x[0] for x in (results(a) or [])}), "cli": sorted({x[0] for x in (results(b) or [])}),
+                                              "--ini": sorted({x[0] for x in (results(c) or [])}), "exception": a["exception"]}, "signature": None})
+    shutil.rmtree(d, ignore_errors=True)
+
+
 def contradictions(R, rng, tier):
     """A test both selected and skipped is rejected (status 2, diagnostic) wherever the two halves come from."""
     import yaml
@@ -396,6 +422,10 @@ def malformed(R, rng, tier):
     cases.append(("toml-invalid-utf8", "c.toml", b'[tool.bandit]\nskips = ["B101"] # caf\xe9\n', []))
     cases.append(("toml-utf16", "c.toml", '[tool.bandit]\nskips = ["B101"]\n'.encode("utf-16"), []))
     cases.append(("yaml-top-invalid-utf8", "c.yaml", b"skips: [B101] # caf\xe9\n", []))
+    # YAML the parser itself refuses: keys that are not scalars (a "parse error", never a traceback)
+    cases.append(("yaml-top-complex-key-seq", "c.yaml", "? [a, b]\n: 1\n", []))
+    cases.append(("yaml-top-complex-key-flow", "c.yaml", "{[B110]: x}\n", []))
+    cases.append(("yaml-top-complex-key-nested", "c.yaml", "try_except_pass:\n  ? {a: 1}\n  : true\n", []))
     cases.append(("missing-file", None, None, []))
     cases.append(("unknown-profile", "c.yaml", "profiles:\n  a:\n    include: [B101]\n", ["-p", "nosuch"]))
     cases.append(("contradictory", "c.yaml", "tests: [B101]\nskips: [B101]\n", []))
@@ -428,6 +458,22 @@ def malformed(R, rng, tier):
                                      "input": inp, "observed": r["exit"], "signature": None})
             elif not (r["stderr"].strip() or r["stdout"].strip()):
                 R.violations.append({"what": "malformed configuration (%s) rejected without a diagnostic" % name, "input": inp, "observed": "", "signature": None})
+    # YAML spellings of one and the same mapping - anchors and merge keys, flow and block style, quoted keys - are one configuration
+    same = [("try_except_pass:\n  check_typed_exception: true\n", "zz_base: &zz_b\n  check_typed_exception: true\ntry_except_pass:\n  <<: *zz_b\n"),
+            ("skips: [B101]\nhardcoded_tmp_directory:\n  tmp_dirs: [/var/data]\n", "{skips: [B101], hardcoded_tmp_directory: {tmp_dirs: [/var/data]}}\n"),
+            ("tests: [B110, B101]\ntry_except_pass: {check_typed_exception: true}\n", "'tests': &zz_t ['B110', \"B101\"]\n\"try_except_pass\":\n  'check_typed_exception': yes\n")]
+    for plain_doc, fancy in same:
+        pa, pb = os.path.join(d, "plain.yaml"), os.path.join(d, "fancy.yaml")
+        open(pa, "w").write(plain_doc)
+        open(pb, "w").write(fancy)
+        a = climain.run_main(["-q", "-f", "json", "-c", pa, tgt])
+        b = climain.run_main(["-q", "-f", "json", "-c", pb, tgt])
+        R.case(("yaml-spelling", fancy), sample={"config": fancy, "exit_plain": a["exit"], "exit_other": b["exit"], "exception": b["exception"]})
+        R.count("malformed:spelling")
+        if a["exception"] or b["exception"] or a["exit"] != b["exit"] or results(a) != results(b):
+            R.violations.append({"what": "two YAML spellings of the same mapping give different results (%s vs %s)" % (
+                a["exception"] or "exit %s" % a["exit"], b["exception"] or "exit %s" % b["exit"]), "input": {"plain": plain_doc, "other": fancy},
+                "observed": {"plain": (results(a) or [])[:5], "other": (results(b) or [])[:5], "stderr": b["stderr"][-200:]}, "signature": None})
     # a YAML file in UTF-16 (byte order mark) is the same configuration as its UTF-8 rendering
     for doc in ("skips: [B101]\n", "tests: [B102, B105]\n", "shell_injection:\n  subprocess: [myspawn]\n  shell: []\n  no_shell: []\n"):
         p8, p16 = os.path.join(d, "u8.yaml"), os.path.join(d, "u16.yaml")
@@ -565,6 +611,7 @@ def run(R, replay=None):
     generated_plus_settings(R, rng, R.tier)
     default_blocks(R, rng, R.tier)
     option_source(R, rng, R.tier)
+    ini_discovery(R, rng, R.tier)
     ini_booleans(R, rng, R.tier)
     model_corr(R, rng, R.tier)
     R.disagreements_checked = R.evaluations
